@@ -143,6 +143,11 @@ class SymReal(Proxy):
     def __lt__(self, o):
         return SymBool(self.t < num_term(o))
 
+    def __getattr__(self, k):
+        if k.startswith("__") and k.endswith("__"):
+            raise AttributeError(k)
+        raise EngineUnsupported("number method .%s is not modelled" % k)
+
     def __vf_str__(self):
         return SymStr(z3.Function("num_str", z3.RealSort(), z3.StringSort())(self.t))
 
@@ -408,6 +413,11 @@ class RunLayout:
     """head (or tail) of the members of a run, only usable in the uniform updates P + head / tail + S"""
     __vf_symbolic__ = True
 
+    def __getattr__(self, k):
+        if k.startswith("__") and k.endswith("__"):
+            raise AttributeError(k)
+        raise EngineUnsupported("%s.%s is not modelled" % (type(self).__name__, k))
+
     def __init__(self, run, attr):
         self.run = run
         self.attr = attr
@@ -432,6 +442,11 @@ class RunLayout:
 class RunLayoutUpdate:
     __vf_symbolic__ = True
 
+    def __getattr__(self, k):
+        if k.startswith("__") and k.endswith("__"):
+            raise AttributeError(k)
+        raise EngineUnsupported("%s.%s is not modelled" % (type(self).__name__, k))
+
     def __init__(self, run, attr, side, text):
         self.run, self.attr, self.side, self.text = run, attr, side, text
 
@@ -439,6 +454,11 @@ class RunLayoutUpdate:
 class RunText:
     """text of a Run: only meaningful as an element of a join with the run's own operator (L-J)"""
     __vf_symbolic__ = True
+
+    def __getattr__(self, k):
+        if k.startswith("__") and k.endswith("__"):
+            raise AttributeError(k)
+        raise EngineUnsupported("%s.%s is not modelled" % (type(self).__name__, k))
 
     def __init__(self, run):
         self.run = run
@@ -504,7 +524,8 @@ def body(x):
     return r
 
 
-def make_instance(cls, name, layout="sym", implicit=False, nops=2, child_classes=None, child_layout=None):
+def make_instance(cls, name, layout="sym", implicit=False, nops=2, child_classes=None, child_layout=None,
+                  from_string=False):
     """a concrete instance of a node class with symbolic attributes and abstract children.
     layout 'sym': parsed-tree case (symbolic head/tail/pos/size); 'none': hand-built (None/None/""/"").
     implicit: Fuzzy/Proximity/Boost built without an explicit degree/force.
@@ -529,6 +550,12 @@ def make_instance(cls, name, layout="sym", implicit=False, nops=2, child_classes
         elif k == "num":
             if implicit:
                 args[f] = None
+            elif from_string:
+                # as the parser builds it: the numeral is passed as the string matched by the lexer
+                from . import ext
+                n = SymStr(name="%s_%s" % (name, f))
+                ctx().assume(z3.InRe(n.t, ext.INT_OK_UNSIGNED if cname == "Proximity" else ext.DECIMAL_OK_UNSIGNED))
+                args[f] = n
             elif cname == "Proximity":
                 args[f] = SymInt(name="%s_%s" % (name, f))
             else:
